@@ -1,10 +1,12 @@
 package props
 
 import (
+	"context"
 	"encoding/json"
 	"fmt"
 	"strings"
 	"testing"
+	"time"
 
 	"pgregory.net/rapid"
 
@@ -23,6 +25,8 @@ type HandshakeCase struct {
 	ServerID uint32
 	StartAt4 bool
 	Cuts     []int
+	// Deadlines: bit i set = attempt i runs under a context with a (far) deadline
+	Deadlines int `json:",omitempty"`
 }
 
 // cutAfterCommits truncates the script right after the n-th commit event it carries.
@@ -123,6 +127,12 @@ func checkC07(c *HandshakeCase) error {
 				at.mutate = cutAfterCommits(l, c.Cuts[i])
 			}
 		}
+		if (c.Deadlines>>uint(i))&1 == 1 {
+			// the caller's context carries a (far) deadline: the request must stay a blocking one
+			dctx, dcancel := context.WithTimeout(context.Background(), time.Hour)
+			defer dcancel()
+			at.ctx, at.fallbackCancel = dctx, dcancel
+		}
 		st := ss.run(at)
 		st.drainLib()
 		if err := st.panicErr(); err != nil {
@@ -190,6 +200,7 @@ func TestC07(t *testing.T) {
 	o.Rotations = 1
 	o.Ignorables = false
 	o.BigBase = false
+	o.Scale = false
 	o.Col = gen.ColumnOpt{Only: []byte{refenc.TLong, refenc.TVarchar, refenc.TTiny}, NoHeavy: true}
 	o.Kinds = []hist.UnitKind{hist.UTxXID, hist.UTxCommit, hist.UDDL}
 	rapidCheck(t, func(rt *rapid.T) {
@@ -244,6 +255,7 @@ func TestC07(t *testing.T) {
 		if c.H.Base < c.H.MinBase() {
 			c.H.Base = c.H.MinBase()
 		}
+		c.Deadlines = rapid.IntRange(0, 15).Draw(rt, "deadline_mask")
 		na := rapid.IntRange(0, 3).Draw(rt, "failed_attempts")
 		for i := 0; i < na; i++ {
 			c.Cuts = append(c.Cuts, rapid.IntRange(-2, 3).Draw(rt, "cut"))
